@@ -143,3 +143,77 @@ Qed.
 Lemma closure_prog_loses :
   lost (run (start 2 (closure_prog 2)) [EIntake 0; EMain; EMain; EMain; EMain; EWork 0]) = 1.
 Proof. reflexivity. Qed.
+
+(* ---- "... and exit": the main goroutine can always run to its end ---- *)
+Definition same_ctl (s s' : sys) (k : nat) : Prop :=
+  prog s' = prog s /\ inStop s' = inStop s /\ rStopped (get (rs s') k) = rStopped (get (rs s) k) /\ outOpen s' = outOpen s.
+
+(* the workers of receiver k drain its queue: q hand-overs *)
+Lemma drain n k : forall q s, Inv n s -> k < n -> rQueued (get (rs s) k) = q ->
+  Inv n (run s (repeat (EWork k) q)) /\ rQueued (get (rs (run s (repeat (EWork k) q))) k) = 0 /\
+  same_ctl s (run s (repeat (EWork k) q)) k.
+Proof.
+  unfold run, same_ctl. induction q as [|q IH]; intros s HI Hk Hq; cbn [repeat fold_left].
+  - split; [exact HI|]. split; [exact Hq|]. split; [reflexivity|]. split; [reflexivity|]. split; reflexivity.
+  - assert (Hlen : length (rs s) = n) by (destruct HI as (H & _); exact H).
+    pose proof (inv_step n s (EWork k) HI) as HI1.
+    assert (E : step s (EWork k) = {| rs := upd (rs s) k {| rStopped := rStopped (get (rs s) k); rQueued := q |}; prog := prog s; inStop := inStop s;
+             outOpen := outOpen s; written := if outOpen s then S (written s) else written s;
+             lost := if outOpen s then lost s else S (lost s); taken := taken s |}) by (cbn [step]; rewrite Hq; reflexivity).
+    assert (Hq1 : rQueued (get (rs (step s (EWork k))) k) = q) by (rewrite E; cbn [rs]; rewrite get_upd_same by lia; reflexivity).
+    destruct (IH (step s (EWork k)) HI1 Hk Hq1) as (A & B & C & D & F & G).
+    split; [exact A|]. split; [exact B|]. rewrite C, D, F, G, E. cbn [prog inStop rs outOpen]. rewrite get_upd_same by lia. cbn [rStopped].
+    repeat split; reflexivity.
+Qed.
+
+Definition measure (s : sys) : nat := 2 * length (prog s) + (if inStop s then 0 else 1).
+
+Lemma run_app s a b : run s (a ++ b) = run (run s a) b.
+Proof. unfold run. apply fold_left_app. Qed.
+
+Lemma phase n s : Inv n s -> prog s <> [] -> exists es, Inv n (run s es) /\ measure (run s es) < measure s.
+Proof.
+  intros HI Hne. pose proof HI as (Hlen & Hlost & Htak & [(k & Hk & Hp & Ho & Hd & Hu & Hi)|(Hp & _)]); [|congruence].
+  destruct (Nat.eq_dec k n) as [->|Hkn].
+  - exists [EMain]. split; [apply inv_step; exact HI|].
+    rewrite Nat.sub_diag in Hp. cbn [seq map app] in Hp.
+    assert (E1 : step s EMain = {| rs := rs s; prog := []; inStop := false; outOpen := false; written := written s; lost := lost s; taken := taken s |})
+      by (cbn [step]; rewrite Hp; reflexivity).
+    unfold run. cbn [fold_left]. rewrite E1. unfold measure. rewrite Hp. cbn [prog inStop length]. destruct (inStop s); lia.
+  - assert (Hlt : k < n) by lia. rewrite (seq_S_split k n Hlt) in Hp. cbn [map app] in Hp.
+    destruct (inStop s) eqn:Ein.
+    + (* inside Stop: let the workers drain the queue, then Stop returns *)
+      destruct (drain n k (rQueued (get (rs s) k)) s HI Hlt eq_refl) as (HI1 & Hq0 & Hp1 & Hin1 & _ & _).
+      exists (repeat (EWork k) (rQueued (get (rs s) k)) ++ [EMain]). rewrite run_app.
+      set (s1 := run s (repeat (EWork k) (rQueued (get (rs s) k)))) in *.
+      split; [unfold run; cbn [fold_left]; apply inv_step; exact HI1|].
+      assert (M0 : measure s = 2 * S (length (map MStop (seq (S k) (n - S k)) ++ [MClose]))) by (unfold measure; rewrite Hp, Ein; cbn [length]; lia).
+      assert (E1 : step s1 EMain = {| rs := rs s1; prog := map MStop (seq (S k) (n - S k)) ++ [MClose]; inStop := false;
+                                      outOpen := outOpen s1; written := written s1; lost := lost s1; taken := taken s1 |})
+        by (cbn [step]; rewrite Hp1, Hp, Hin1, Ein, Hq0; reflexivity).
+      unfold run at 1. cbn [fold_left]. rewrite E1, M0. unfold measure. cbn [prog inStop]. lia.
+    + (* Stop begins *)
+      destruct (Hu k ltac:(lia)) as [[_ H]|Hns]; [congruence|].
+      exists [EMain]. split; [apply inv_step; exact HI|].
+      assert (M0 : measure s = 2 * length (prog s) + 1) by (unfold measure; rewrite Ein; reflexivity).
+      assert (E1 : step s EMain = {| rs := upd (rs s) k {| rStopped := true; rQueued := rQueued (get (rs s) k) |}; prog := prog s; inStop := true;
+                                     outOpen := outOpen s; written := written s; lost := lost s; taken := taken s |})
+        by (cbn [step]; rewrite Hp, Ein, Hns; reflexivity).
+      unfold run. cbn [fold_left]. rewrite E1, M0. unfold measure. cbn [prog inStop]. lia.
+Qed.
+
+(* "... and exit": from every state the collector can reach after SIGTERM, whatever has been taken in, a schedule on
+   which the workers drain their queues lets the main goroutine run to its end (Stop is never stuck for good) *)
+Theorem shutdown_can_finish n es : exists es', prog (run (run (start n (main_prog n)) es) es') = [].
+Proof.
+  assert (H : Inv n (run (start n (main_prog n)) es)).
+  { unfold run. generalize (inv_start n). generalize (start n (main_prog n)).
+    induction es as [|e r IH]; intros s Hs; [exact Hs|]. cbn [fold_left]. apply IH. apply inv_step. exact Hs. }
+  revert H. generalize (run (start n (main_prog n)) es). intros s.
+  remember (measure s) as m eqn:Em. revert s Em. induction m as [m IH] using lt_wf_ind. intros s Em HI.
+  destruct (prog s) eqn:Ep.
+  - exists []. exact Ep.
+  - destruct (phase n s HI ltac:(congruence)) as (es1 & HI1 & Hm).
+    destruct (IH (measure (run s es1)) ltac:(lia) (run s es1) eq_refl HI1) as (es2 & H2).
+    exists (es1 ++ es2). rewrite run_app. exact H2.
+Qed.
